@@ -371,7 +371,7 @@ def correspondence(ctx, obs, quick):
     nsteps = n2d = nsp = 0
     for o in obs:
         k = o["kind"]
-        if k == "steps" and nsteps < (40 if quick else 400):
+        if k == "steps" and nsteps < (40 if quick else 600):
             nsteps += 1
             s, e, n = H(o["s"]), H(o["e"]), o["n"]
             exact = o["cls"] == "dyadic"
@@ -379,7 +379,7 @@ def correspondence(ctx, obs, quick):
             add("steps", o, f"check_seq1d {cq(s)} {cq(e)} {n} {cqlist(H(x) for x in o['fwd'])} {tol}", exact)
             mixed = "[" + "; ".join("None" if x is None else f"Some {cq(H(x))}" for x in o["mixed"]) + "]"
             add("sched", o, f"check_sched1d {cq(s)} {cq(e)} {n} {cbools(o['sched'])} {mixed} {tol}", exact)
-        elif k == "steps2d" and n2d < (14 if quick else 120):
+        elif k == "steps2d" and n2d < (14 if quick else 160):
             n2d += 1
             a = f"{cq(H(o['x0']))} {cq(H(o['x1']))} {o['nx']} {cq(H(o['y0']))} {cq(H(o['y1']))} {o['ny']}"
             if "pts" in o:
@@ -397,7 +397,7 @@ def correspondence(ctx, obs, quick):
             add("idx1", o, "(" + f"flat_map (fun c => map (fun r => get_1d_index c r {cols}) (seq 0 12)) (seq 0 {cols})" + ")")
         elif k == "transpose":
             add("tr", o, f"transpose_vec (seq 0 {o['rows'] * o['cols']}) {o['cols']}")
-        elif k == "space" and nsp < (12 if quick else 90):
+        elif k == "space" and nsp < (12 if quick else 120):
             nsp += 1
             sp = lambda s: "((%s, %s, %d), (%s, %s, %d))" % (cq(H(s[0][0])), cq(H(s[0][1])), s[0][2], cq(H(s[1][0])), cq(H(s[1][1])), s[1][2])
             if o["from"] in ("frequency", "wavelength"):
@@ -517,7 +517,10 @@ def run(ctx):
     okf, _, _ = coq_build(ctx, ["Findings/C14_transpose.vo"]) if not msgs else (False, [], "")
     n = 1 if quick else 6
     obs = run_harness(ctx, binp, ["c14", ctx.seed, n, "grid"])
-    obs += run_harness(ctx, binp, ["c14", ctx.seed, 2 if quick else 8, "range"], timeout=900)
+    if not quick:
+        # a second, independent stream (only the randomised observation kinds add information)
+        obs += [o for o in run_harness(ctx, binp, ["c14", ctx.seed + 7919, n, "grid"]) if o["kind"] in ("steps", "steps2d", "space", "transpose_f")]
+    obs += run_harness(ctx, binp, ["c14", ctx.seed, 2 if quick else 12, "range"], timeout=900)
     bad_nonsquare = oracle(ctx, obs)
     if bad_nonsquare and not okf:
         ctx.note("Findings/C14_transpose.v did not build although the harness still observes the non-square failure")
